@@ -23,7 +23,7 @@
 #define NAMELEN 2
 #include "C06/tree.h"
 #include "C06/env.h"
-#include "C06/get_path_contract.h"
+#include "C06/get_path_msg_contract.h"
 
 static unsigned g_seq;
 static unsigned g_t_mkdir_p, g_t_chdir_ok, g_t_restore, g_t_fill, g_t_attr;
